@@ -187,6 +187,8 @@ package upstream
 //@   modifies-all $gCancelled
 //@   ghost-set gCancelled = true
 //@ contract (*Server).Shutdown
+//@   ghost-set gShutStep = old(gShutStep) + 1
+//@   ghost-set tUpDown = old(gShutStep) + 1
 //@   serves C16 C18
 //@   opt dyncall CancelFunc
 //@   ensures[cancelled] gCancelled
